@@ -9,7 +9,7 @@ import tools.rect.pseudobool as PB
 PID = 'C08'
 FUNCTIONS = ['rect.definecoords', 'rect.enforce_bb', 'rect.solve', 'rect.area', 'SATManager.*', 'pseudobool.* (cost constraint, ROBDD)']
 BOUNDS = {'quick': 'grids 1x2, 2x2, 2x3 with k<=2 boxes and 3x2 with k=2; 5 coordinate families (origin 0 / 1.5, unit / 0.75 / non-uniform '
-                   'steps); 3 cost bounds in minimum-error mode with 2 occupancy patterns; ALL assignments of the cell variables (symbolic Booleans)',
+                   'steps) and 3 mixed pairs (different origin and spacing on the two axes); 3 cost bounds in minimum-error mode with 2 occupancy patterns; ALL assignments of the cell variables (symbolic Booleans)',
           'thorough': '3x3 with k<=3'}
 STUBS = ['SATManager.solve replaced by a recorder (the CNF is taken from the manager rect.solve built; no SAT call) for the model-set '
          'obligations; for the returned-rectangles obligation the real PySAT solver runs (concrete replays) or a z3-backed complete solver']
@@ -55,6 +55,11 @@ def cases(tier):
                     cs.append(dict(R=R, C=C, k=k, fam=fam, occ=occ, dif=dif))
             for dif in (0, 60, 10**6):
                 cs.append(dict(kind='ret', R=R, C=C, k=k, fam=fam, occ='corner', dif=dif))
+        # different origins / steps on the two axes
+        for fx, fy in (('origin2-nonuniform', 'origin0-unit'), ('origin0-unit', 'origin1.5-unit'), ('origin0-0.75', 'origin2-nonuniform')):
+            cs.append(dict(R=R, C=C, k=k, fam=fx, famy=fy, occ='ramp', dif=-10**6))
+            cs.append(dict(R=R, C=C, k=k, fam=fx, famy=fy, occ='corner', dif=50))
+            cs.append(dict(kind='ret', R=R, C=C, k=k, fam=fx, famy=fy, occ='corner', dif=60))
     return cs
 
 
@@ -96,7 +101,7 @@ def body_ret(I, case):
         SM.Solver = saved
         RR.__dict__.pop('print', None)
     I.reached('returned')
-    xs, ys = COORDS[case['fam']](C), COORDS[case['fam']](R)
+    xs, ys = COORDS[case['fam']](C), COORDS[case.get('famy', case['fam'])](R)
     coef = [2 * int(FACTOR * p * (x2 - x1) * (y2 - y1)) - int(FACTOR * (x2 - x1) * (y2 - y1)) for (x1, y1, x2, y2, p) in ip]
 
     def cost_of(combo):
@@ -125,7 +130,7 @@ class Recorder(SM.SATManager):
 
 def build(case):
     R, C = case['R'], case['C']
-    xs, ys = COORDS[case['fam']](C), COORDS[case['fam']](R)
+    xs, ys = COORDS[case['fam']](C), COORDS[case.get('famy', case['fam'])](R)
     ip = []
     for r in range(R):
         for c in range(C):
